@@ -119,6 +119,7 @@ class Check:
                          if e.get('property') == pid]
         self.machinery_errors = []
         self.notes = []
+        shutil.rmtree(os.path.join(VERIF, 'replays', pid), ignore_errors=True)
 
     # ---- coverage bookkeeping ------------------------------------------------------------
     def add_tlc(self, res):
@@ -176,7 +177,9 @@ class Check:
             os.makedirs(rdir, exist_ok=True)
             bysig = {}
             for sig, wit in self.violations:
-                bysig.setdefault(json.dumps(sig, sort_keys=True), []).append(wit)
+                # one replay file per signature class ('kind' + 'clause'), not per witness
+                cls = {k: v for k, v in sig.items() if k in ('kind', 'clause')} or sig
+                bysig.setdefault(json.dumps(cls, sort_keys=True), []).append(dict(wit, signature=sig))
             for n, (sigtxt, wits) in enumerate(sorted(bysig.items())):
                 p = os.path.join(rdir, 'violation_%02d.json' % n)
                 with open(p, 'w') as f:
